@@ -46,7 +46,7 @@ class C09(C06):
             if s.op in ('send_headers', 'push_stream'):
                 return C06.on_step(self, w, s)
             return
-        if len(s.units) == 1 and s.units[0].type in (C.HEADERS, C.PUSH_PROMISE):
+        if s.exact and s.units[0].type in (C.HEADERS, C.PUSH_PROMISE):
             pre = s.pre[0]
             if pre is None or pre.state == 'closed':
                 self.nontrivial = True
